@@ -174,3 +174,61 @@ Qed.
 
 Lemma EX_frame s s' : EX s -> (forall e k, tok_holds s' e k -> tok_holds s e k) -> EX s'.
 Proof. intros X H. apply (EX_move s s' (fun k => k) X H). auto. Qed.
+
+(** ** Frame lemmas for the helper's assertions *)
+Lemma MineA_upd s s' t :
+  MineA s -> (forall t', t' <> t -> thr s' t' = thr s t') ->
+  (forall t' n, t' <> t -> owner (thr s t') = Some n -> mem (sh s') (LOffer n) = mem (sh s) (LOffer n)) ->
+  (forall n mine, owner (thr s' t) = Some n -> pe67_s (t_stack (thr s' t)) = Some mine ->
+                  mem (sh s') (LOffer n) = mine) ->
+  MineA s'.
+Proof.
+  intros M Hoth Hoff Ht. apply MineA_iff. intros t0 n mine Ho Hp.
+  destruct (N.eq_dec t0 t) as [->|Hne]; [apply Ht; assumption|].
+  rewrite (Hoth t0 Hne) in Ho, Hp. rewrite (Hoff t0 n Hne Ho). exact (proj1 (MineA_iff s) M t0 n mine Ho Hp).
+Qed.
+
+Lemma EnvA_upd s s' t :
+  EnvA s -> (forall t', t' <> t -> thr s' t' = thr s t') ->
+  (forall t' r mine, t' <> t -> pe7_s (t_stack (thr s t')) = Some (r, mine) ->
+                     mem (sh s') (LEnv (env_of mine)) = mem (sh s) (LEnv (env_of mine))) ->
+  (forall r mine, pe7_s (t_stack (thr s' t)) = Some (r, mine) -> mem (sh s') (LEnv (env_of mine)) = r) ->
+  EnvA s'.
+Proof.
+  intros A Hoth Henv Ht. apply EnvA_iff. intros t0 r mine Hp.
+  destruct (N.eq_dec t0 t) as [->|Hne]; [apply Ht; assumption|].
+  rewrite (Hoth t0 Hne) in Hp. rewrite (Henv t0 r mine Hne Hp). exact (proj1 (EnvA_iff s) A t0 r mine Hp).
+Qed.
+
+(** A helper between [PE6] and [PE7] holds the token of the envelope it fills. *)
+Lemma pe67_token s t mine :
+  WF2 s -> Quiet s -> MineA s -> pe67_s (t_stack (thr s t)) = Some mine ->
+  exists n e, owner (thr s t) = Some n /\ mine = env_val e /\ tok_holds s e (TOffer n).
+Proof.
+  intros W Q M Hp. destruct (t_stack (thr s t)) as [|p rest] eqn:Hs; [discriminate|].
+  assert (Hin : In p (t_stack (thr s t))) by (rewrite Hs; left; reflexivity).
+  pose proof (all_frames_ok s t _ W Q Hin) as Hok.
+  assert (Hi : in_with p = true) by (destruct p; try discriminate Hp; reflexivity).
+  destruct (top_owner s t p rest W Q Hs Hi) as (Hr & n & Ho & Hlt & Ht).
+  assert (Hidle : node_idle (mem (sh s)) n) by (destruct p; try discriminate Hp; exact Ht).
+  assert (Hm : exists e, e < nn s /\ mine = env_val e).
+  { destruct p; try discriminate Hp; cbn in Hp, Hok; injection Hp as ->; tauto. }
+  destruct Hm as (e & _ & ->). exists n, e. split; [exact Ho|]. split; [reflexivity|].
+  apply tok_offer_iff. split; [exact Hlt|]. split.
+  - apply (proj1 (MineA_iff s) M t n _ Ho). rewrite Hs. exact Hp.
+  - split; [rewrite (proj1 Hidle); apply nrepl_idle|].
+    intros t1 Ho1. assert (t1 = t) as -> by (eapply owner_unique; eassumption).
+    rewrite Hs. destruct p; try discriminate Hp; reflexivity.
+Qed.
+
+Lemma pe67_distinct s t t' mine mine' :
+  WF2 s -> Quiet s -> EX s -> MineA s ->
+  pe67_s (t_stack (thr s t)) = Some mine -> pe67_s (t_stack (thr s t')) = Some mine' ->
+  env_of mine' = env_of mine -> t' = t.
+Proof.
+  intros W Q X M H1 H2 He.
+  destruct (pe67_token s t mine W Q M H1) as (n & e & Ho & -> & T).
+  destruct (pe67_token s t' mine' W Q M H2) as (n' & e' & Ho' & -> & T').
+  rewrite !env_of_env_val in He. subst e'.
+  pose proof (X e _ _ T T') as E. injection E as <-. eapply owner_unique; eassumption.
+Qed.
